@@ -308,7 +308,17 @@ def check_provider(cx, f, rep):
         rep.bad('DISCR-VALUE', where, 'push-value', 'pushed value is not the running counter', f.file, pe.line)
         return
     cd = pe.scope.lookup(arg['path']['s'])
-    if cd is None or cd.init is None or not (cd.init['k'] == 'Lit' and cd.init['lit'].get('digits') == '0'):
+    # form B: the counter is an Option ("the next value, None after i128::MAX"): `let value = counter.unwrap_or(i128::MAX);
+    # values.push(value); counter = value.checked_add(1);` with `counter = Some(<explicit>)` — the same sequence as saturating_add
+    opt_value = None
+    if cd is not None and cd.init is not None and cd.init['k'] == 'MethodCall' and cd.init['method'] == 'unwrap_or' and len(cd.init['args']) == 1 \
+            and es(cd.init['args'][0]).replace(' ', '') == 'i128::MAX' and cd.init['recv']['k'] == 'Path' and any(c is loop for c in cd.ctx) and not cd.assigns:
+        opt_value = cd
+        cd = pe.scope.lookup(cd.init['recv']['path']['s'])
+        if cd is None or cd.init is None or es(cd.init).replace(' ', '') not in ('Some(0)', 'Some(0i128)'):
+            rep.bad('DISCR-VALUE', where, 'counter-init', 'the discriminant counter does not start at 0', f.file, cd.line if cd else f.line)
+            return
+    elif cd is None or cd.init is None or not (cd.init['k'] == 'Lit' and cd.init['lit'].get('digits') == '0'):
         rep.bad('DISCR-VALUE', where, 'counter-init', 'the discriminant counter does not start at 0', f.file, cd.line if cd else f.line)
         return
     if any(c['k'] == 'for' for c in cd.ctx):
@@ -319,12 +329,19 @@ def check_provider(cx, f, rep):
     explicit = []
     for a in cd.assigns:
         v = a.value
+        if opt_value is not None and a.seq < pe.seq:
+            if not (v['k'] == 'Call' and v['func']['k'] == 'Path' and v['func']['path']['s'] == 'Some' and len(v['args']) == 1):
+                rep.bad('DISCR-VALUE', where, 'explicit-value', 'the optional counter is assigned `%s`, not `Some(<explicit discriminant>)`' % es(v)[:60], f.file, a.line)
+                return
+            v = v['args'][0]
         txt = es(v)
         if a.seq > pe.seq:
             incs.append((a, txt))
         else:
             explicit.append((a, txt))
-    inc_ok = len(incs) == 1 and incs[0][1].replace(' ', '') in ('%s.saturating_add(1)' % cd.name, '(%s+1)' % cd.name, '%s.wrapping_add(1)' % cd.name, '%s.checked_add(1)' % cd.name) \
+    steps = ('%s.saturating_add(1)' % cd.name, '(%s+1)' % cd.name, '%s.wrapping_add(1)' % cd.name, '%s.checked_add(1)' % cd.name) if opt_value is None \
+        else ('%s.checked_add(1)' % opt_value.name,)
+    inc_ok = len(incs) == 1 and incs[0][1].replace(' ', '') in steps \
         and not [c for c in incs[0][0].ctx if c is not loop and not (c['k'] == 'iflet' and 'Data::Enum' in pat_s(c['pat']))]
     if not inc_ok:
         rep.bad('DISCR-VALUE', where, 'counter-step', 'after recording a variant the counter is not advanced by exactly one on every path (%s)' % [t for _, t in incs], f.file, pe.line)
